@@ -33,6 +33,7 @@ type pathComm struct {
 	bothWays int             // packet requests that carried upstream data and whose answer (carrying downstream data) exceeded the limit
 	maxEx    int
 	overrun  bool
+	optDrops int // that many option requests ('o': the codec switches, the fragment size) are lost before one gets through
 }
 
 func (s *pathComm) Close() error                       { s.closed = true; return nil }
@@ -108,6 +109,10 @@ func (s *pathComm) SendAndReceive(m *dns.Msg, timeout *time.Duration) (*dns.Msg,
 		return nil, 0, net.ErrClosed
 	}
 	if s.types != nil && len(m.Question) > 0 && !s.types[m.Question[0].Qtype] {
+		return nil, 0, smux.ErrTimeout
+	}
+	if s.optDrops > 0 && len(m.Question) > 0 && len(m.Question[0].Name) > 0 && (m.Question[0].Name[0] == 'o' || m.Question[0].Name[0] == 'O') {
+		s.optDrops--
 		return nil, 0, smux.ErrTimeout
 	}
 	b, err := m.Pack()
@@ -220,6 +225,11 @@ func init() {
 			}
 		}
 		seed := int(a[4].I)
+		if len(a) > 6 {
+			// c11 ... <seed> <domain length or 0> <k>: the first k option requests are lost (five in a row: the client gives a codec
+			// switch up and falls back, having tested the codec it wanted)
+			pc.optDrops = int(a[6].I)
+		}
 		serverPanics = 0
 		cl, err := sadns.NewClientDnsConnection(testDomain, pc)
 		if err != nil {
